@@ -10,6 +10,8 @@ import (
 	"sort"
 	"strings"
 	"sync"
+
+	"github.com/privacybydesign/gabi"
 )
 
 // Case is one correspondence case: model function id, input, and the implementation's
@@ -123,6 +125,13 @@ func main() {
 		}()
 		f(s, rng, *tier)
 	}()
+	// package-level integer constants of the library must still hold their values: an operation that wrote a result into one
+	// of them (an aliased 'constant one', say) corrupts every later computation in the process
+	for cname, pair := range gabi.VerifSentinels() {
+		if pair[0] == nil || pair[0].Cmp(pair[1]) != 0 {
+			s.Violate(name+":package-constant-overwritten", fmt.Sprintf("after the run of suite %s the package-level constant %s holds %v instead of %v", name, cname, pair[0], pair[1]), L{cname})
+		}
+	}
 	if err := s.write(*out); err != nil {
 		fmt.Fprintln(os.Stderr, err)
 		os.Exit(2)
